@@ -262,14 +262,23 @@ def species_modes(ls, division_index):
     return modes, opt.get("volume", default)
 
 
-def simulate_lineage(M, grid, seed, cells=1):
-    """Seeded lineage simulation: list of dicts (time, data, volume, parent index, daughter indices)."""
+def simulate_lineage(M, grid, seed, cells=1, simulator=None):
+    """Seeded lineage simulation: list of dicts (time, data, volume, parent index, daughter indices).
+    simulator: a LineageSSASimulator object to run on (what the module-level helper does with a new object every time)."""
     import numpy as np
     from bioscrape.lineage import py_SimulateCellLineage
     from bioscrape.random import py_seed_random
     py_seed_random(int(seed))
+    tp = np.array(grid, dtype=float)
     with specmod.quiet():
-        L = py_SimulateCellLineage(np.array(grid, dtype=float), Model=M, initial_cell_states=int(cells))
+        if simulator is None:
+            L = py_SimulateCellLineage(tp, Model=M, initial_cell_states=int(cells))
+        else:
+            from bioscrape.lineage import LineageCSimInterface, LineageVolumeCellState
+            itf = LineageCSimInterface(M)
+            itf.py_set_initial_time(tp[0])
+            cellstates = [LineageVolumeCellState(v0=1, t0=0, state=itf.py_get_initial_state())] * int(cells)
+            L = simulator.py_SimulateCellLineage(tp, interface=itf, initial_cell_states=cellstates)
     return lineage_records(L), L
 
 
